@@ -4,8 +4,7 @@ package das
 
 // Contracts for the deductive verifier in /verif (govc). Comments only; build tag "verif".
 
-//@ extern (*github.com/celestiaorg/celestia-node/header.ExtendedHeader).Height
-//@   pure
+// (*header.ExtendedHeader).Height is under contract in package header (pure).
 
 // ---------------------------------------------------------------------------------------------
 // C04: a persisted checkpoint covers every height that is still in flight.
